@@ -32,6 +32,8 @@ CONFIGS = {
     "plainoff": ("plainoff", ["MON_PLAIN", "MON_VARIANT=0"]),   # same, compiled WITHOUT the hook guard
     "all1": ("cl0", ["MON_VARIANT=1", "MON_CTRL=3"]),  # hooks for internal rules too, with unwind
     "nounw1": ("cl0", ["MON_VARIANT=4", "MON_CTRL=0"]),  # control without unwind()
+    "lazyeol4": ("cl0", ["MON_VARIANT=1", "MON_EOL=4", "MON_LAZY=1"]),
+    "lazyeol2": ("cl0", ["MON_VARIANT=1", "MON_EOL=2", "MON_LAZY=1"]),
     "eol0": ("cl0", ["MON_VARIANT=1", "MON_EOL=0"]),
     "eol1": ("cl0", ["MON_VARIANT=1", "MON_EOL=1"]),
     "eol2": ("cl0", ["MON_VARIANT=1", "MON_EOL=2"]),
@@ -56,6 +58,8 @@ SIZES = {
     "state": (100, 1000),
     "cyc": (900, 0),
     "buf": (100, 800),
+    "contrib": (60, 600),
+    "atoms": (42, 210),
     "chain": (0, 0),
 }
 
